@@ -108,6 +108,9 @@ def run(ctx, col, tier):
     col.rule("R-ORDER", "no operation depends on the node numbering beyond the root being first: no "
              "loop over rows in storage order reads, at the row's parent, an array it fills in that "
              "loop; zero expected, positive examples kept", floor=1)
+    col.rule("R-STATE", "applying a transform leaves the transform object unchanged: no method other than __init__ "
+             "assigns to self or mutates a container held by self without undoing it (stale removal lists, "
+             "a matrix conjugated twice, a cached array shared between results); zero expected, positive examples kept", floor=1)
     col.rule("R-COMPOSE", "a pipeline only rebinds its value to the result of the next component",
              floor=1, shape=True)
     col.assumptions += [
@@ -181,6 +184,8 @@ def run(ctx, col, tier):
         "swcgeom.core.swc_utils.normalizer", "swcgeom.core.swc_utils.base", "swcgeom.transforms.tree",
         "swcgeom.transforms.geometry", "swcgeom.transforms.branch_tree", "swcgeom.transforms.branch",
         "swcgeom.core.swc", "swcgeom.core.tree", "swcgeom.core.branch_tree"), "tree-to-tree operations")
+    from ..rules import stateless
+    col.guard(stateless.check, ctx, col, "R-STATE", ("swcgeom.transforms.tree", "swcgeom.transforms.geometry", "swcgeom.transforms.branch", "swcgeom.transforms.branch_tree", "swcgeom.transforms.base", "swcgeom.transforms.path", "swcgeom.transforms.population"))
     col.guard(mustpass, ctx, col)
     col.guard(writeset, ctx, col)
     col.guard(compose, ctx, col)
